@@ -50,6 +50,9 @@ struct World<S: Service> {
     must: HashMap<usize, BTreeSet<usize>>, // ids of notifies that returned ok while the listener existed, not yet reported
     killed_listeners: usize,               // listeners of dead nodes that nobody cleaned up yet (upper bound)
     defaults: HashMap<usize, usize>,       // default event id per notifier
+    // single-listener API: listener identity -> label (kept after the listener is gone), remembered keys (notifier, listener label)
+    lis_ids: HashMap<u128, usize>,
+    keys: HashMap<(usize, usize), iceoryx2::port::notifier::ListenerKey>,
 }
 
 pub enum AnyWorld {
@@ -107,7 +110,7 @@ fn mk<S: Service>(t: &[&str]) -> Result<World<S>, String> {
         config, name, prefix, parts, node_dirs: vec![node_dir], nots: HashMap::new(), liss: HashMap::new(),
         not_labels: Default::default(), lis_labels: Default::default(),
         id_max: n(t[4]), created: opt(t[5]), dropped: opt(t[6]), dead_ev: opt(t[7]),
-        may: HashMap::new(), must: HashMap::new(), killed_listeners: 0, defaults: HashMap::new(),
+        may: HashMap::new(), must: HashMap::new(), killed_listeners: 0, defaults: HashMap::new(), lis_ids: HashMap::new(), keys: HashMap::new(),
     })
 }
 
@@ -168,7 +171,7 @@ fn exec<S: Service>(w: &mut World<S>, t: &[&str]) -> String {
             if p.dead { return "dead".into(); }
             let Some(svc) = p.svc.as_ref() else { return "no-service".into() };
             match svc.listener_builder().create() {
-                Ok(x) => { w.lis_labels.insert(l); w.liss.insert(l, (x, k)); w.may.insert(l, Default::default()); w.must.insert(l, Default::default()); "ok".into() }
+                Ok(x) => { w.lis_labels.insert(l); w.lis_ids.insert(x.id().value(), l); w.liss.insert(l, (x, k)); w.may.insert(l, Default::default()); w.must.insert(l, Default::default()); "ok".into() }
                 Err(e) => format!("err:ListenerCreateError::{e:?}"),
             }
         }
@@ -192,6 +195,39 @@ fn exec<S: Service>(w: &mut World<S>, t: &[&str]) -> String {
                     format!("err:NotifierNotifyError::{e:?}")
                 }
             }
+        }
+        "keys" => {
+            // keys <n>: the keys notifier n hands out now (`for_each_listener`) are remembered by listener label
+            let nl = n(t[1]);
+            let Some((x, _)) = w.nots.get(&nl) else { return "none".into() };
+            let mut seen: Vec<(usize, iceoryx2::port::notifier::ListenerKey)> = vec![];
+            let mut unknown = false;
+            x.for_each_listener(|m, details| {
+                match w.lis_ids.get(&details.listener_id.value()) { Some(l) => seen.push((*l, m.listener_key())), None => unknown = true }
+                CallbackProgression::Continue
+            });
+            if unknown { oracle_fail("for_each_listener shows a listener nobody created".to_string()); }
+            let mut labels: Vec<usize> = seen.iter().map(|x| x.0).collect();
+            labels.sort();
+            for (l, k) in seen { w.keys.insert((nl, l), k); }
+            let v: Vec<String> = labels.iter().map(|x| x.to_string()).collect();
+            format!("[{}]", v.join(","))
+        }
+        "notifyone" => {
+            // notifyone <n> <l> <id|->: notify_single_listener(_with_custom_event_id) with the remembered key of listener l
+            let (nl, l) = (n(t[1]), n(t[2]));
+            let Some((x, _)) = w.nots.get(&nl) else { return "none".into() };
+            let Some(key) = w.keys.get(&(nl, l)) else { return "no-key".into() };
+            let id = match opt(t[3]) { Some(v) => v, None => w.defaults.get(&nl).cloned().unwrap_or(0) };
+            let r = match opt(t[3]) { Some(v) => x.notify_single_listener_with_custom_event_id(key, EventId::new(v)), None => x.notify_single_listener(key) };
+            use iceoryx2::port::notifier::NotifierNotifyError as E;
+            // only the keyed listener may get the id (oracle `may`), and it must get it when the call reports success
+            let sent = matches!(r, Ok(()) | Err(E::MissedDeadline) | Err(E::UnableToAcquireElapsedTime));
+            if sent && w.liss.contains_key(&l) {
+                w.may.entry(l).or_default().insert(id);
+                if !matches!(r, Err(E::UnableToAcquireElapsedTime)) { w.must.entry(l).or_default().insert(id); }
+            }
+            match r { Ok(()) => "ok".into(), Err(e) => format!("err:NotifierNotifyError::{e:?}") }
         }
         "wait" | "twait" => {
             let l = n(t[1]);
@@ -302,6 +338,8 @@ fn optstr(rng: &mut Rng, none_pct: u64, hi: u64) -> String {
 pub fn generate(a: &Args) -> Vec<Vec<String>> {
     let variant = a.rest.iter().find(|x| *x == "ipc").map(|_| "ipc").unwrap_or("local");
     let limits = a.rest.iter().any(|x| x == "limits");
+    // `single`: the single-listener API (`keys`, `notifyone`) joins the histories, incl. keys of listeners that are gone
+    let single = a.rest.iter().any(|x| x == "single");
     if a.rest.iter().any(|x| x == "shutdown") {
         return shutdown_cases(a, variant);
     }
@@ -328,6 +366,7 @@ pub fn generate(a: &Args) -> Vec<Vec<String>> {
         let (mut nots, mut liss): (Vec<(usize, usize)>, Vec<(usize, usize)>) = (vec![], vec![]);
         let (mut dead_nots, mut dead_liss) = (0usize, 0usize);
         let (mut nn, mut nl, mut np) = (0usize, 0usize, 1usize);
+        let mut keyed: Vec<(usize, usize)> = vec![];
         // weights: open, cnot, clis, dnot, dlis, notify, notifyid, wait, count, dnode, dsvc, kill, cleanup, ls, twait
         let wts: [u64; 15] = if limits { [6, 16, 16, 8, 8, 10, 6, 10, 4, 1, 1, 2, 3, 3, 1] } else { [4, 8, 9, 4, 4, 18, 12, 20, 3, 2, 2, 4, 5, 3, 2] };
         let total: u64 = wts.iter().sum();
@@ -337,6 +376,28 @@ pub fn generate(a: &Args) -> Vec<Vec<String>> {
             while c >= wts[k] { c -= wts[k]; k += 1; }
             if nots.is_empty() && rng.chance(40) { k = 1 }
             if liss.is_empty() && rng.chance(40) { k = 2 }
+            if single && !nots.is_empty() && rng.chance(16) {
+                let nn0 = rng.pick(&nots).0;
+                match rng.below(10) {
+                    0..=2 => { keyed.extend(liss.iter().map(|e| (nn0, e.0))); lines.push(format!("keys {nn0}")); }
+                    3..=7 => {
+                        // mostly a remembered key (its listener may be gone by now), sometimes any pair
+                        let (x, l) = if !keyed.is_empty() && rng.chance(85) { *rng.pick(&keyed) } else { (nn0, rng.below(nl as u64 + 1) as usize) };
+                        lines.push(format!("notifyone {x} {l} {}", optstr(&mut rng, 30, idmax + 1)));
+                    }
+                    _ if !liss.is_empty() => {
+                        // slot re-use: remember the keys, drop a listener, create another one (it takes the freed slot), use the old key
+                        let i = rng.below(liss.len() as u64) as usize; let (l, p) = liss.remove(i);
+                        let x = nl; nl += 1; liss.push((x, p));
+                        lines.push(format!("keys {nn0}")); lines.push(format!("dlis {l}")); lines.push(format!("clis {x} {p}"));
+                        if rng.chance(50) { lines.push(format!("keys {nn0}")); keyed.push((nn0, x)); }
+                        lines.push(format!("notifyone {nn0} {l} {}", optstr(&mut rng, 30, idmax)));
+                        lines.push(format!("wait {x}"));
+                    }
+                    _ => {}
+                }
+                continue;
+            }
             // a node to act through: mostly a live one (with a service handle when `need_svc`)
             let some_part = |rng: &mut Rng, parts: &Vec<P>, dead: &Vec<usize>, need_svc: bool| -> usize {
                 if rng.chance(3) { return rng.below(4) as usize }
@@ -424,13 +485,18 @@ fn exhaustive(a: &Args, variant: &str) -> Vec<Vec<String>> {
     let mut cases = vec![];
     // (max_notifiers max_listeners event_id_max created dropped dead max_nodes deadline)
     let configs = ["2 2 3 1 2 3 2 -", "1 1 1 - 1 2 2 -", "2 1 2 0 - 1 3 short"];
-    let alphabet: Vec<String> = [
+    let mut alphabet: Vec<String> = [
         "cnot", "clis", "dnot", "dlis", "notify 0", "notify 1", "notifyid 0 9", "wait 0", "wait 1", "dsvc 0", "dnode 0", "open", "kill 1", "cleanup 0", "count 1",
     ].iter().map(|x| x.to_string()).collect();
+    if a.rest.iter().any(|x| x == "single") {
+        // the single-listener API; the listeners are created on alternating nodes: `dlis` + `clis` re-uses a slot
+        alphabet = ["clis", "dlis", "keys 0", "notifyone 0 0 2", "notifyone 0 1 -", "notifyone 0 0 9", "wait 0", "wait 1", "notify 0", "cnot", "dnot", "kill 1"].iter().map(|x| x.to_string()).collect();
+    }
     for cfg in configs {
         enumerate_seqs(&alphabet, a.exhaustive as usize, &mut |seq| {
             // prefix: a second node, one notifier (node 1) and one listener (node 0) exist, one notification is pending
             let mut lines = vec![format!("new {variant} {cfg}"), "open 1".to_string(), "cnot 0 1 1".to_string(), "clis 0 0".to_string(), "notify 0".to_string()];
+            if a.rest.iter().any(|x| x == "single") { lines.push("keys 0".to_string()); }
             let (mut nn, mut nl, mut np) = (1usize, 1usize, 2usize);
             let (mut dn, mut dl) = (0usize, 0usize);
             for &i in seq {
